@@ -6,6 +6,7 @@
     GivesCheck and the legality tests are in [AttacksCheckProofs] / [AttacksLegalProofs]. *)
 From Coq Require Import NArith ZArith List Bool Lia ZifyN ZifyBool Btauto.
 From FG Require Import Word64 Geom Tables TablesCorrect ShiftCorrect Rules FenSpec Oracle BitView AttacksImpl AttacksLemmas.
+From FG.gen Require Import Tables_gen.
 Import ListNotations.
 Open Scope N_scope.
 
@@ -35,7 +36,14 @@ Lemma legal_pos_inv p : legal_pos p = true ->
   forallb (fun s => negb (type_of (piece_at p s) =? PAWN) || negb ((rank_of s =? 0) || (rank_of s =? 7))) squares64 = true /\
   rights_ok p = true /\ ep_ok p = true.
 Proof.
-  unfold legal_pos. rewrite !andb_true_iff, !Nat.eqb_eq, !N.ltb_lt, negb_true_iff. tauto.
+  unfold legal_pos. intros H.
+  apply andb_true_iff in H as [H H10]. apply andb_true_iff in H as [H H9].
+  apply andb_true_iff in H as [H H8]. apply andb_true_iff in H as [H H7].
+  apply andb_true_iff in H as [H H6]. apply andb_true_iff in H as [H H5].
+  apply andb_true_iff in H as [H H4]. apply andb_true_iff in H as [H H3].
+  apply andb_true_iff in H as [H1 H2].
+  apply Nat.eqb_eq in H1, H3, H4. apply N.ltb_lt in H5, H6. apply negb_true_iff in H7.
+  repeat split; assumption.
 Qed.
 
 Lemma legal_pos_wf p : legal_pos p = true -> wf_att p.
@@ -101,32 +109,35 @@ Lemma ray_hit_app b s c d1 d2 ty : ray_hit b s c (d1 ++ d2) ty = ray_hit b s c d
 Proof. unfold ray_hit. apply existsb_app. Qed.
 
 (** ** the en-passant clause *)
+Lemma file_of_mod s : file_of s = s mod 8.
+Proof. unfold file_of. change 7 with (N.ones 3). now rewrite N.land_ones. Qed.
+
+Lemma file_succ_lt s : s < 64 -> file_of s < 7 -> s + 1 < 64.
+Proof.
+  rewrite file_of_mod. intros Hs Hf. pose proof (N.div_mod s 8 ltac:(discriminate)).
+  assert (s / 8 < 8) by (apply N.div_lt_upper_bound; lia). lia.
+Qed.
+
 Lemma ep_neighbours_exact p s pawn : length (brd p) = 64%nat -> s < 64 ->
   ep_neighbours (view_of_spec p) s pawn =
   Some (((0 <? file_of s) && (piece_at p (s - 1) =? pawn)) || ((file_of s <? 7) && (piece_at p (s + 1) =? pawn))).
 Proof.
   intros Hl Hs. unfold ep_neighbours. rewrite !sq_to_exact by exact Hs.
   rewrite step_west, step_east by exact Hs. cbn [bind].
-  assert (Hf : file_of s < 8).
-  { unfold file_of. change 7 with (N.ones 3). rewrite N.land_ones. apply N.mod_lt. discriminate. }
-  assert (Hfe : file_of s <= s).
-  { unfold file_of. change 7 with (N.ones 3). rewrite N.land_ones. apply N.mod_le. discriminate. }
+  assert (Hf : file_of s < 8) by (rewrite file_of_mod; apply N.mod_lt; discriminate).
+  assert (Hfe : file_of s <= s) by (rewrite file_of_mod; apply N.mod_le; discriminate).
   destruct (N.ltb_spec 0 (file_of s)) as [H0|H0]; cbn [andb orb].
   - replace (s - 1 =? 64) with false by (symmetry; apply N.eqb_neq; lia).
     rewrite board_at_view by (try exact Hl; lia). cbn [bind]. unfold piece_at.
     destruct (at_ (brd p) (s - 1) =? pawn); cbn [orb]; [reflexivity|].
     destruct (N.ltb_spec (file_of s) 7) as [H7|H7]; cbn [andb].
-    + assert (Hs1 : s + 1 < 64).
-      { pose proof (N.div_mod s 8). unfold file_of in *. change 7 with (N.ones 3) in *.
-        rewrite N.land_ones in *. change (2 ^ 3) with 8 in *. assert (s / 8 < 8) by (apply N.div_lt_upper_bound; lia). lia. }
+    + assert (Hs1 : s + 1 < 64) by now apply file_succ_lt.
       replace (s + 1 =? 64) with false by (symmetry; apply N.eqb_neq; lia).
       rewrite board_at_view by assumption. reflexivity.
     + reflexivity.
-  - cbn [N.eqb]. cbn [bind].
+  - change (64 =? 64) with true. cbv iota. cbn [bind].
     destruct (N.ltb_spec (file_of s) 7) as [H7|H7]; cbn [andb].
-    + assert (Hs1 : s + 1 < 64).
-      { pose proof (N.div_mod s 8). unfold file_of in *. change 7 with (N.ones 3) in *.
-        rewrite N.land_ones in *. change (2 ^ 3) with 8 in *. assert (s / 8 < 8) by (apply N.div_lt_upper_bound; lia). lia. }
+    + assert (Hs1 : s + 1 < 64) by now apply file_succ_lt.
       replace (s + 1 =? 64) with false by (symmetry; apply N.eqb_neq; lia).
       rewrite board_at_view by assumption. reflexivity.
     + reflexivity.
@@ -187,3 +198,202 @@ Qed.
 Theorem is_attacked_exact p s c : legal_pos p = true -> s < 64 -> c < 2 ->
   is_attacked_impl (view_of_spec p) s c = Some (is_attacked_spec p s c).
 Proof. intros H. apply is_attacked_exact_wf. now apply legal_pos_wf. Qed.
+
+(** ** HasCheck *)
+Lemma king_sq_spec b c : count_piece b (mk_piece c KING) = 1%nat ->
+  king_sq b c < 64 /\ at_ b (king_sq b c) = mk_piece c KING.
+Proof.
+  unfold count_piece, king_sq, is_piece. intros H.
+  destruct (filter (fun s => at_ b s =? mk_piece c KING) squares64) as [|k l] eqn:E; [discriminate|].
+  assert (Hin : In k (filter (fun s => at_ b s =? mk_piece c KING) squares64)) by (rewrite E; now left).
+  apply filter_In in Hin as [H1 H2]. apply in_squares64 in H1. apply N.eqb_eq in H2. now split.
+Qed.
+
+Lemma ep_conv1_false p s byc : piece_at p s <> mk_piece (flip byc) PAWN -> ep_conv1 p s byc = false.
+Proof.
+  intros H. unfold ep_conv1. destruct (ep p =? 64); [reflexivity|]. cbv zeta.
+  destruct (N.eqb_spec s (if byc =? WHITE then ep p - 8 else ep p + 8)) as [E|E]; [|reflexivity].
+  rewrite <- E. apply N.eqb_neq in H. rewrite H. reflexivity.
+Qed.
+
+Lemma king_not_pawn c c' : mk_piece c KING <> mk_piece c' PAWN.
+Proof. unfold mk_piece, KING, PAWN. lia. Qed.
+
+Theorem has_check_exact p : legal_pos p = true ->
+  has_check_impl (view_of_spec p) = Some (in_check p).
+Proof.
+  intros H. pose proof (legal_pos_wf p H) as Hwf.
+  apply legal_pos_inv in H as (_ & _ & Hkw & Hkb & Hstm & _).
+  unfold has_check_impl. cbn [vstm view_of_spec].
+  assert (Hk : king_square (view_of_spec p) (stm p) = Some (king_sq (brd p) (stm p))).
+  { unfold king_square. cbn [vking view_of_spec fst snd].
+    assert (stm p = 0 \/ stm p = 1) as [-> | ->] by lia; reflexivity. }
+  rewrite Hk. cbn [bind].
+  assert (Hks : king_sq (brd p) (stm p) < 64 /\ at_ (brd p) (king_sq (brd p) (stm p)) = mk_piece (stm p) KING).
+  { assert (stm p = 0 \/ stm p = 1) as [E | E] by lia; rewrite E.
+    - exact (king_sq_spec (brd p) WHITE Hkw).
+    - exact (king_sq_spec (brd p) BLACK Hkb). }
+  destruct Hks as [Hk1 Hk2].
+  rewrite flipc_flip by exact Hstm.
+  rewrite is_attacked_exact_wf; [|exact Hwf|exact Hk1|unfold flip; lia].
+  f_equal. unfold is_attacked_spec, in_check, in_check_b.
+  rewrite ep_conv1_false; [apply orb_false_r|].
+  unfold piece_at. rewrite Hk2. apply king_not_pawn.
+Qed.
+
+(** ** AttacksTo *)
+(* the filter predicate of [Rules.attackers] *)
+Definition att_from (b : list N) (s byc : N) (t : N) : bool :=
+  let pc := at_ b t in
+  (negb (pc =? 0)) && (colour_of pc =? byc) &&
+  (let ty := type_of pc in
+   if ty =? PAWN then existsb (N.eqb s) (pawn_attack_targets byc t)
+   else if ty =? KNIGHT then existsb (N.eqb s) (knight_targets t)
+   else if ty =? KING then existsb (N.eqb s) (king_targets t)
+   else if ty =? ROOK then existsb (N.eqb s) (rays_from b rook_dirs t)
+   else if ty =? BISHOP then existsb (N.eqb s) (rays_from b bishop_dirs t)
+   else if ty =? QUEEN then existsb (N.eqb s) (rays_from b all_dirs t)
+   else false).
+
+Lemma attackers_word b s c : bb_of (attackers b s c) = bb_filter (att_from b s c).
+Proof. unfold attackers, bb_filter. f_equal. Qed.
+
+Lemma rays_from_slide b dirs t s :
+  existsb (N.eqb s) (rays_from b dirs t) = slide_in (occ_of b) dirs t s.
+Proof.
+  unfold rays_from, slide_in, ray_in. rewrite existsb_concat_map. apply existsb_ext_in.
+  intros d _. now rewrite walk_walkb.
+Qed.
+
+Lemma slide_in_app occ d1 d2 s t : slide_in occ (d1 ++ d2) s t = slide_in occ d1 s t || slide_in occ d2 s t.
+Proof. unfold slide_in. apply existsb_app. Qed.
+
+Lemma piece_case pc c (P Nn K R B : bool) : c < 2 ->
+  (P && (pc =? mk_piece c PAWN)) || (Nn && (pc =? mk_piece c KNIGHT)) || (K && (pc =? mk_piece c KING))
+  || (R && ((pc =? mk_piece c ROOK) || (pc =? mk_piece c QUEEN)))
+  || (B && ((pc =? mk_piece c BISHOP) || (pc =? mk_piece c QUEEN)))
+  = negb (pc =? 0) && (colour_of pc =? c) &&
+    (let ty := type_of pc in
+     if ty =? PAWN then P else if ty =? KNIGHT then Nn else if ty =? KING then K
+     else if ty =? ROOK then R else if ty =? BISHOP then B else if ty =? QUEEN then R || B else false).
+Proof.
+  intros Hc. unfold colour_of, type_of, mk_piece, PAWN, KNIGHT, KING, ROOK, BISHOP, QUEEN. cbv zeta.
+  pose proof (N.div_mod pc 8 ltac:(discriminate)) as Hpc.
+  pose proof (N.mod_lt pc 8 ltac:(discriminate)) as Hm.
+  destruct (N.eqb_spec (pc / 8) c) as [Eq|Nq].
+  - assert (Hm' : pc mod 8 = 0 \/ pc mod 8 = 1 \/ pc mod 8 = 2 \/ pc mod 8 = 3 \/ pc mod 8 = 4 \/
+                  pc mod 8 = 5 \/ pc mod 8 = 6 \/ pc mod 8 = 7) by lia.
+    assert (Hc' : c = 0 \/ c = 1) by lia.
+    destruct Hc' as [-> | ->]; decompose [or] Hm'; clear Hm';
+      match goal with E : pc mod 8 = _ |- _ => rewrite E in Hpc |- *; rewrite Eq in Hpc; rewrite Hpc end;
+      destruct P, Nn, K, R, B; reflexivity.
+  - assert (Hk : forall k, k < 8 -> (pc =? 8 * c + k) = false).
+    { intros k Hk. apply N.eqb_neq. intros E. apply Nq. rewrite E.
+      rewrite N.mul_comm, N.div_add_l by discriminate. rewrite N.div_small by exact Hk. lia. }
+    rewrite !Hk by lia. rewrite !andb_false_r. reflexivity.
+Qed.
+
+Lemma attackers_main b s c : s < 64 -> c < 2 ->
+  N.lor (N.lor (N.lor (N.lor
+     (N.land (bb_of (pawn_attack_targets (flip c) s)) (piece_word b c PAWN))
+     (N.land (bb_of (knight_targets s)) (piece_word b c KNIGHT)))
+     (N.land (bb_of (king_targets s)) (piece_word b c KING)))
+     (N.land (slide rook_dirs s (occ_of b)) (N.lor (piece_word b c ROOK) (piece_word b c QUEEN))))
+     (N.land (slide bishop_dirs s (occ_of b)) (N.lor (piece_word b c BISHOP) (piece_word b c QUEEN)))
+  = bb_of (attackers b s c).
+Proof.
+  intros Hs Hc. rewrite attackers_word. apply N.bits_inj. intros t.
+  rewrite !N.lor_spec, !N.land_spec, !N.lor_spec, !slide_testbit, !bb_of_testbit, bb_filter_testbit.
+  rewrite !piece_word_testbit by discriminate.
+  destruct (N.ltb_spec t 64) as [Ht|Ht]; cbn [andb]; [|rewrite !andb_false_r; reflexivity].
+  rewrite pawn_sym, knight_sym, king_sym by assumption.
+  rewrite (slide_in_sym _ rook_dirs s t rook_dirs_closed Hs Ht).
+  rewrite (slide_in_sym _ bishop_dirs s t bishop_dirs_closed Hs Ht).
+  unfold att_from. rewrite !rays_from_slide.
+  change all_dirs with (rook_dirs ++ bishop_dirs). rewrite slide_in_app.
+  now apply piece_case.
+Qed.
+
+(* neighbour files & rank of a square = its west and east neighbours (finite check) *)
+Definition ep_neigh_list (ps : N) : list N :=
+  (if 0 <? file_of ps then [ps - 1] else []) ++ (if file_of ps <? 7 then [ps + 1] else []).
+
+Lemma ep_mask_check :
+  forallb (fun ps => (N.land (neighbour_files ps) (wshl 255 (8 * N.shiftr ps 3)) =? bb_of (ep_neigh_list ps))
+                     && (N.shiftr ps 3 <? 8) && forallb (fun t => t <? 64) (ep_neigh_list ps)) squares64 = true.
+Proof. vm_compute. reflexivity. Qed.
+
+Lemma attacks_to_ep_exact p s c : wf_att p -> s < 64 -> c < 2 ->
+  attacks_to_ep (view_of_spec p) s c = Some (bb_of (ep_conv2 p s c)).
+Proof.
+  intros [Hl [Hco He]] Hs Hc. unfold attacks_to_ep, ep_conv2. cbn [vep view_of_spec].
+  destruct (N.eqb_spec (ep p) 64) as [E|E]; cbn [negb andb orb]; [reflexivity|].
+  rewrite (N.eqb_sym s (ep p)). destruct (N.eqb_spec (ep p) s) as [E2|E2]; cbn [negb]; [|reflexivity].
+  destruct He as [He|He]; [contradiction|].
+  assert (Hep : ep p < 64) by lia.
+  set (ps := if c =? WHITE then ep p - 8 else ep p + 8).
+  assert (Hps : ps < 64) by (unfold ps; destruct (c =? WHITE); lia).
+  assert (Hd : (do d <- move_direction (flipc c); sq_to (ep p) d) = Some ps).
+  { unfold ps. assert (c = 0 \/ c = 1) as [-> | ->] by lia.
+    - change (move_direction (flipc 0)) with (Some DS). cbn [bind]. rewrite sq_to_exact, step_south by exact Hep.
+      replace (8 <=? ep p) with true by (symmetry; apply N.leb_le; lia). reflexivity.
+    - change (move_direction (flipc 1)) with (Some DN). cbn [bind]. rewrite sq_to_exact, step_north by exact Hep.
+      replace (ep p <? 56) with true by (symmetry; apply N.ltb_lt; lia). reflexivity. }
+  destruct (move_direction (flipc c)) as [d|]; [|discriminate]. cbn [bind] in Hd |- *. rewrite Hd. cbn [bind].
+  pose proof (forall_squares _ ep_mask_check ps Hps) as Hm. cbv beta in Hm.
+  apply andb_true_iff in Hm as [Hm Hm3]. apply andb_true_iff in Hm as [Hm1 Hm2]. apply N.eqb_eq in Hm1.
+  unfold neighbour_files_mask. rewrite neighbour_files_exact by exact Hps. cbn [bind].
+  unfold rank_bb. rewrite Hm2. cbn [bind].
+  rewrite pbb_view by (try exact Hc; unfold PAWN; lia). cbn [bind].
+  rewrite Hm1. rewrite meets_piece_word; [|discriminate|].
+  2:{ intros t Ht. rewrite forallb_forall in Hm3. apply N.ltb_lt. now apply Hm3. }
+  replace (ps <? 64) with true by (symmetry; now apply N.ltb_lt). cbn [andb].
+  assert (Hex : existsb (fun t => is_piece (brd p) t c PAWN) (ep_neigh_list ps) =
+                ((0 <? file_of ps) && (piece_at p (ps - 1) =? mk_piece c PAWN))
+                || ((file_of ps <? 7) && (piece_at p (ps + 1) =? mk_piece c PAWN))).
+  { unfold ep_neigh_list, is_piece, piece_at.
+    destruct (0 <? file_of ps), (file_of ps <? 7); cbn [app existsb andb orb]; btauto. }
+  rewrite Hex. destruct (_ || _).
+  - unfold sq_bb. rewrite sqbb_exact by exact Hps. cbn [bind bb_of fold_right].
+    now rewrite N.lor_0_l, N.lor_0_r.
+  - reflexivity.
+Qed.
+
+Theorem attacks_to_exact_wf p s c : wf_att p -> s < 64 -> c < 2 ->
+  attacks_to_impl (view_of_spec p) s c = Some (attacks_to_spec p s c).
+Proof.
+  intros Hwf Hs Hc. pose proof Hwf as [Hl [Hco He]].
+  unfold attacks_to_impl. rewrite attacks_to_ep_exact by assumption. cbn [bind].
+  rewrite occ_all_view by exact Hco. rewrite flipc_flip by exact Hc.
+  assert (Hfc : flip c < 2) by (unfold flip; lia).
+  rewrite get_pawn_attacks_exact, get_knight_exact, get_king_exact, get_bishop_exact, get_rook_exact by assumption.
+  rewrite !pbb_view by (try exact Hc; unfold PAWN, KNIGHT, KING, BISHOP, ROOK, QUEEN; lia).
+  cbn [bind]. f_equal. unfold attacks_to_spec. f_equal. now apply attackers_main.
+Qed.
+
+Theorem attacks_to_exact p s c : legal_pos p = true -> s < 64 -> c < 2 ->
+  attacks_to_impl (view_of_spec p) s c = Some (attacks_to_spec p s c).
+Proof. intros H. apply attacks_to_exact_wf. now apply legal_pos_wf. Qed.
+
+(** "the is-attacked query is true exactly when there is such a piece":
+    the rules-level attack test is the non-emptiness of the rules-level attacker list *)
+Lemma lor_nz x y : negb (N.lor x y =? 0) = negb (x =? 0) || negb (y =? 0).
+Proof.
+  destruct (N.eqb_spec x 0) as [->|Hx]; cbn [negb orb].
+  - now rewrite N.lor_0_l.
+  - destruct (N.eqb_spec (N.lor x y) 0) as [E|E]; [|reflexivity].
+    apply N.lor_eq_0_iff in E as [E _]. contradiction.
+Qed.
+
+Theorem attacked_iff_attackers b s c : s < 64 -> c < 2 ->
+  attacked b s c = negb (bb_of (attackers b s c) =? 0).
+Proof.
+  intros Hs Hc. rewrite <- attackers_main by assumption.
+  rewrite !N.land_lor_distr_r, !lor_nz.
+  change (forall x y, negb (N.land x y =? 0) = meets x y) with (forall x y, meets x y = meets x y).
+  repeat match goal with |- context [negb (N.land ?x ?y =? 0)] => change (negb (N.land x y =? 0)) with (meets x y) end.
+  rewrite !meets_slide by discriminate.
+  rewrite !meets_piece_word by (try discriminate; intros t Ht;
+    first [now apply pawn_targets_lt in Ht | now apply knight_targets_lt in Ht | now apply king_targets_lt in Ht]).
+  unfold attacked. rewrite !slider_hits_split. btauto.
+Qed.
